@@ -4,7 +4,9 @@ import ZV.Model.C14
     entries `-` | `serial:time,…`; exts `-` | `1.2.3/<0|1>/<hex>,…`;
     hdr `version/thisUpdate/nextUpdate/<sig hex>/<issuer>`; issuer `-` | RDNs joined by `;`, attributes by `+`, empty RDN `~`.
     `c14 seq <serial>:<mode>,… <entries> <exts> <hdr>`: the lookups made one after the other on ONE CertificateList object
-    (caches built once from it); output = the single-lookup outputs joined by ` | `, each computed on the original CRL. -/
+    (caches built once from it); output = the single-lookup outputs joined by ` | `, each computed on the original CRL.
+    An issuer attribute is `oid=<hex of the Go string>` or `oid=#<hex>` (a non-string value, opaque).
+    `c14 str <int>`: the cache key `(*big.Int).String()` of a serial. -/
 namespace ZV.C14
 
 def parseEntry (s : String) : Option Entry :=
@@ -26,14 +28,57 @@ def parseExt (s : String) : Option Ext :=
     | _, _ => none
   | _ => none
 
-def parseRDN (s : String) : Option (List Atv) :=
-  if s == "~" then some [] else some (s.splitOn "+")
+def hexStr (bs : Bytes) : String := String.join (bs.map hexOfByte)
+
+def parseAtv (s : String) : Option ZV.C22.ATV :=
+  match s.splitOn "=" with
+  | [o, v] =>
+    match (o.splitOn ".").mapM String.toNat? with
+    | some oid =>
+      (match v.toList with
+       | '#' :: rest => (ofHexChars rest).map (fun b => { type := oid, value := .other 0 b })
+       | cs => (ofHexChars cs).map (fun b => { type := oid, value := .str b }))
+    | none => none
+  | _ => none
+
+def parseRDN (s : String) : Option ZV.C22.RDN :=
+  if s == "~" then some [] else (s.splitOn "+").mapM parseAtv
+
+def parseIssuer (s : String) : Option (Option ZV.C22.RDNSeq) :=
+  if s == "-" then some none else ((s.splitOn ";").mapM parseRDN).map some
 
 def showOid (o : List Nat) : String := ".".intercalate (o.map toString)
 def showExt (e : Ext) : String := showOid e.oid ++ "/" ++ (if e.critical then "1" else "0") ++ "/" ++ toHex e.value
 def showExts (l : List Ext) : String := if l.isEmpty then "-" else ",".intercalate (l.map showExt)
-def showRDN (r : List Atv) : String := if r.isEmpty then "~" else "+".intercalate r
-def showRDNs (l : RDNs) : String := if l.isEmpty then "-" else ";".intercalate (l.map showRDN)
+def showAtv (a : ZV.C22.ATV) : String :=
+  showOid a.type ++ "=" ++ (match a.value with | .str b => hexStr b | .other _ b => "#" ++ hexStr b)
+def showRDN (r : ZV.C22.RDN) : String := if r.isEmpty then "~" else "+".intercalate (r.map showAtv)
+def showRDNs (l : Option ZV.C22.RDNSeq) : String :=
+  match l with
+  | none => "-"
+  | some l => if l.isEmpty then "-" else ";".intercalate (l.map showRDN)
+
+def showSlice (key : String) (l : List Bytes) : List String :=
+  if l.isEmpty then [] else [key ++ ":" ++ ";".intercalate (l.map hexStr)]
+def showScalar (key : String) (v : Bytes) : List String :=
+  if v.isEmpty then [] else [key ++ ":" ++ hexStr v]
+
+/-- the per-attribute fields of pkix.Name, struct declaration order -/
+def showFields (n : ZV.C22.Name) : String :=
+  let items :=
+    showSlice "Country" n.country ++ showSlice "Organization" n.organization ++
+    showSlice "OrganizationalUnit" n.organizationalUnit ++ showSlice "Locality" n.locality ++
+    showSlice "Province" n.province ++ showSlice "StreetAddress" n.streetAddress ++
+    showSlice "PostalCode" n.postalCode ++ showSlice "DomainComponent" n.domainComponent ++
+    showSlice "EmailAddress" n.emailAddress ++ showScalar "SerialNumber" n.serialNumber ++
+    showScalar "CommonName" n.commonName ++ showSlice "SerialNumbers" n.serialNumbers ++
+    showSlice "CommonNames" n.commonNames ++ showSlice "GivenName" n.givenName ++
+    showSlice "Surname" n.surname ++ showSlice "OrganizationIDs" n.organizationIDs ++
+    showSlice "JurisdictionLocality" n.jurisdictionLocality ++
+    showSlice "JurisdictionProvince" n.jurisdictionProvince ++
+    showSlice "JurisdictionCountry" n.jurisdictionCountry ++
+    (if n.extraNames.isEmpty then [] else ["X:" ++ ";".intercalate (n.extraNames.map showAtv)])
+  if items.isEmpty then "-" else ",".intercalate items
 
 def showRev (r : RevData) : String :=
   "rev=" ++ (if r.isRevoked then "t" else "f") ++
@@ -42,8 +87,11 @@ def showRev (r : RevData) : String :=
   " crit=" ++ showExts r.unknownCritical ++
   " non=" ++ showExts r.unknown ++
   " ver=" ++ toString r.version ++ " this=" ++ toString r.thisUpdate ++ " next=" ++ toString r.nextUpdate ++
-  " sig=" ++ toHex r.sig ++ " rdns=" ++ showRDNs r.issuerRDNs ++
-  " names=" ++ (if r.issuerNames.isEmpty then "-" else "+".intercalate r.issuerNames)
+  " sig=" ++ toHex r.sig ++ " rdns=" ++ showRDNs r.issuer.originalRDNS ++
+  " names=" ++ (if r.issuer.names.isEmpty then "-" else "+".intercalate (r.issuer.names.map showAtv)) ++
+  " fields=" ++ showFields r.issuer ++
+  " reason=" ++ (match r.entryReason with | none => "nil" | some c => toString c) ++
+  " rawx=" ++ showExts r.rawEntryExts
 
 def cacheOf (mode : String) (es : List Entry) : Option (Option Cache) :=
   if mode == "n" then some none
@@ -55,7 +103,7 @@ def cacheOf (mode : String) (es : List Entry) : Option (Option Cache) :=
 def parseCRL (entries exts hdr : String) : Option CRL :=
   match parseList parseEntry "," entries, parseList parseExt "," exts, hdr.splitOn "/" with
   | some es, some xs, [v, tu, nu, sg, iss] =>
-    match parseInt v, parseInt tu, parseInt nu, ofHex sg, parseList parseRDN ";" iss with
+    match parseInt v, parseInt tu, parseInt nu, ofHex sg, parseIssuer iss with
     | some v, some tu, some nu, some sg, some iss => some ⟨v, tu, nu, iss, sg, es, xs⟩
     | _, _, _, _, _ => none
   | _, _, _ => none
@@ -70,6 +118,10 @@ def parseQuery (es : List Entry) (s : String) : Option (Int × Option Cache) :=
 
 def handle (args : List String) : String :=
   match args with
+  | ["str", i] =>
+    match parseInt i with
+    | some x => decStr x
+    | none => "bad-op"
   | ["seq", queries, entries, exts, hdr] =>
     match parseCRL entries exts hdr with
     | some crl =>
